@@ -8,6 +8,7 @@ Exit codes: 0 property held on everything explored (or only known findings),
 1 violation (with VIOLATION line), 2 inconclusive/broken (never a VIOLATION).
 """
 import fcntl
+import glob
 import json
 import os
 import shutil
@@ -144,6 +145,13 @@ def main():
     budget = tcfg["budget_s"]
     par = min(nshards, int(os.environ.get("VERIF_JOBS", "14")))
     shutil.rmtree(f"{WORK}/{check_id}/s{seed}", ignore_errors=True)
+    # witnesses of this (check, seed) are rewritten by this run
+    rdir = os.environ.get("KVH_REPLAY_DIR", f"{VERIF}/replays")
+    for f in glob.glob(f"{rdir}/{check_id}_*_s{seed}_*.json"):
+        try:
+            os.remove(f)
+        except OSError:
+            pass
     with ThreadPoolExecutor(max_workers=par) as ex:
         futs = [ex.submit(run_shard, check_id, spec, tier, seed, i, nshards,
                           budget) for i in range(nshards)]
@@ -245,11 +253,12 @@ def main():
         "wall_s": round(time.time() - t_start, 1),
         "violations": len(new_violations),
     }
-    os.makedirs(f"{VERIF}/evidence", exist_ok=True)
-    tmp = f"{VERIF}/evidence/{check_id}.json.tmp"
+    evdir = os.environ.get("VERIF_EVIDENCE_DIR", f"{VERIF}/evidence")
+    os.makedirs(evdir, exist_ok=True)
+    tmp = f"{evdir}/{check_id}.json.tmp"
     with open(tmp, "w") as f:
         json.dump(evidence, f, indent=1, sort_keys=True)
-    os.replace(tmp, f"{VERIF}/evidence/{check_id}.json")
+    os.replace(tmp, f"{evdir}/{check_id}.json")
 
     for k, v in known_hits:
         log(f"KNOWN-FINDING: property={check_id} {k['signature']}: "
